@@ -373,6 +373,27 @@ def gen_scenario_a(rng, hist):
             pool = [D.ctls[0]]
         ins = rng.sample(pool, min(len(pool), rng.randint(1, 3)))
         tree = gen_tree(rng, len(ins), rng.randint(0, 2))
+        if kind == "sync" and rng.random() < 0.45:
+            # the bits of one fresh unsigned signal are split between two processes (possibly of different domains):
+            # partial `ctx.set` calls that must accumulate whatever the order in which the processes run
+            from amaranth.hdl import unsigned
+            w = rng.randint(2, 6)
+            out = Signal(unsigned(w), name=f"pp{k}", init=rng.randint(0, (1 << w) - 1))
+            extra.append(out)
+            cut = rng.randint(1, w - 1)
+            same = rng.random() < 0.6
+            d0 = rng.randrange(len(D.cds))
+            for (lo, hi) in ((0, cut), (cut, w)):
+                ins_p = rng.sample(pool, min(len(pool), rng.randint(1, 3)))
+                scn.users.append(("syncp", d0 if same else rng.randrange(len(D.cds)), ins_p, (out, lo, hi),
+                                  gen_tree(rng, len(ins_p), rng.randint(0, 2))))
+            hist["user:syncp"] = hist.get("user:syncp", 0) + 1
+            continue
+        if kind == "comb" and rng.random() < 0.3:
+            # the combinational form entered only after a delay: no wake-up "to see the initial values"
+            scn.users.append(("late", rng.randint(1, 3 * scn.maxperiod), ins, out, tree))
+            hist["user:late"] = hist.get("user:late", 0) + 1
+            continue
         scn.users.append((kind, rng.randrange(len(D.cds)), ins, out, tree))
         hist["user:" + kind] = hist.get("user:" + kind, 0) + 1
     hist[f"users:{len(scn.users)}"] = hist.get(f"users:{len(scn.users)}", 0) + 1
@@ -586,7 +607,7 @@ def run_impl(scn, mode, oseed):
         newest(before)
     for kind, d, ins, out, tree in scn.users:
         before = {id(p) for p in eng._processes}
-        sim.add_process(_mk_process(kind, scn.cds[d], ins, out, tree))
+        sim.add_process(_mk_process(kind, d if kind == "late" else scn.cds[d], ins, out, tree))
         newest(before)
     trace = []
     for t, script in enumerate(scn.tbs):
@@ -611,6 +632,22 @@ def _mk_process(kind, cd, ins, out, tree):
         async def proc(ctx):
             async for vals in ctx.changed(*ins):
                 ctx.set(out, pyeval(tree, [int(v) for v in vals]))
+    elif kind == "late":
+        from amaranth.hdl import Period
+
+        async def proc(ctx):
+            await ctx.delay(Period(fs=cd))
+            async for vals in ctx.changed(*ins):
+                ctx.set(out, pyeval(tree, [int(v) for v in vals]))
+    elif kind == "syncp":
+        sig, lo, hi = out
+
+        async def proc(ctx):
+            async for clk_edge, rst, *vals in ctx.tick(cd).sample(*ins):
+                if rst:
+                    ctx.set(sig[lo:hi], sig.init >> lo)
+                elif clk_edge:
+                    ctx.set(sig[lo:hi], pyeval(tree, [int(v) for v in vals]))
     else:
         async def proc(ctx):
             async for clk_edge, rst, *vals in ctx.tick(cd).sample(*ins):
@@ -711,7 +748,11 @@ def ser_scenario(scn):
     for kind, d, ins, out, tree in scn.users:
         e = ser_value(build_tree(tree, ins), sigidx)
         ii = " ".join(str(sigidx[id(s)]) for s in ins)
-        if kind == "comb":
+        if kind == "late":
+            users.append(f"(ulate {d} ({ii}) {sigidx[id(out)]} {e})")
+        elif kind == "syncp":
+            users.append(f"(usyncp {d} ({ii}) {sigidx[id(out[0])]} {out[1]} {out[2]} {e})")
+        elif kind == "comb":
             users.append(f"(ucomb ({ii}) {sigidx[id(out)]} {e})")
         else:
             users.append(f"(usync {d} ({ii}) {sigidx[id(out)]} {e})")
@@ -750,7 +791,8 @@ def ser_scenario(scn):
 def describe(scn):
     return {"kind": scn.kind, "signals": [s.name for s in scn.sigs],
             "clocks": [(scn.cds[d].name, p, ph) for d, p, ph in scn.clocks],
-            "users": [(k, scn.cds[d].name, [s.name for s in ins], out.name, tree) for k, d, ins, out, tree in scn.users],
+            "users": [(k, d if k == "late" else scn.cds[d].name, [s.name for s in ins], out.name if not isinstance(out, tuple) else f"{out[0].name}[{out[1]}:{out[2]}]", tree)
+                      for k, d, ins, out, tree in scn.users],
             "mode": scn.mode, "script_lengths": [len(s) for s in scn.tbs]}
 
 
